@@ -44,21 +44,34 @@ class HdlcAddress:
         else:
             # server address type
 
-            logical_higher, logical_lower = self._split_address(self.logical_address)
+            if self.physical_address is not None:
+                if self.logical_address > 0b01111111 or (
+                    self.physical_address > 0b01111111
+                ):
+                    # four byte form: two bytes for each part, 7 bits in each byte.
+                    out.extend(
+                        [
+                            (self.logical_address >> 7) << 1,
+                            (self.logical_address & 0b01111111) << 1,
+                            (self.physical_address >> 7) << 1,
+                            # mark physical lower as end
+                            ((self.physical_address & 0b01111111) << 1) | 0b00000001,
+                        ]
+                    )
+                else:
+                    # two byte form, mark physical as end
+                    out.extend(
+                        [
+                            self.logical_address << 1,
+                            (self.physical_address << 1) | 0b00000001,
+                        ]
+                    )
+                return bytes(out)
 
-            if self.physical_address:
-                physical_higher, physical_lower = self._split_address(
-                    self.physical_address
-                )
-                # mark physical lower as end
-                physical_lower = physical_lower | 0b00000001
-                out.extend(
-                    [logical_higher, logical_lower, physical_higher, physical_lower]
-                )
-            else:
-                # no physical address so mark the logial as end.
-                logical_lower = logical_lower | 0b00000001
-                out.extend([logical_higher, logical_lower])
+            logical_higher, logical_lower = self._split_address(self.logical_address)
+            # no physical address so mark the logial as end.
+            logical_lower = logical_lower | 0b00000001
+            out.extend([logical_higher, logical_lower])
 
         out_bytes = list()
         for address in out:
@@ -145,7 +158,7 @@ class HdlcAddress:
         elif destination_length == 4:
             address_bytes = hdlc_frame_bytes[3:7]
             destination_logical = HdlcAddress.parse_two_byte_address(address_bytes[:2])
-            destination_physical = HdlcAddress.parse_two_byte_address(address_bytes[3:])
+            destination_physical = HdlcAddress.parse_two_byte_address(address_bytes[2:])
 
         # Find source address
         source_length: int = 1
@@ -168,14 +181,18 @@ class HdlcAddress:
             source_physical = None
 
         elif source_length == 2:
-            address_bytes = hdlc_frame_bytes[3 + destination_length : 5 + source_length]
+            address_bytes = hdlc_frame_bytes[
+                3 + destination_length : 5 + destination_length
+            ]
             source_logical = address_bytes[0] >> 1
             source_physical = address_bytes[1] >> 1
 
-        elif destination_length == 4:
-            address_bytes = hdlc_frame_bytes[3 + destination_length : 7 + source_length]
+        elif source_length == 4:
+            address_bytes = hdlc_frame_bytes[
+                3 + destination_length : 7 + destination_length
+            ]
             source_logical = HdlcAddress.parse_two_byte_address(address_bytes[:2])
-            source_physical = HdlcAddress.parse_two_byte_address(address_bytes[3:])
+            source_physical = HdlcAddress.parse_two_byte_address(address_bytes[2:])
 
         return (
             (destination_logical, destination_physical, destination_length),
@@ -184,7 +201,7 @@ class HdlcAddress:
 
     @staticmethod
     def parse_two_byte_address(address_bytes: bytes):
-        if address_bytes != 2:
+        if len(address_bytes) != 2:
             raise ValueError(f"Can only parse 2 bytes for address")
         upper = address_bytes[0] >> 1
         lower = address_bytes[1] >> 1
